@@ -39,6 +39,9 @@ InDomain == NoNegCycle(n, {<<A[i][1], A[i][2], A[i][4]>> : i \in {j \in 1..Len(A
 CostCheck(e, b) ==
   IF ~InDomain THEN ""
   ELSE IF e.status = "INFEASIBLE" THEN (IF FeasibleRouting(b) THEN "Infeasible.but_feasible_flow_exists" ELSE "")
+  \* MAX_ITER / FEASIBLE are the answers of a call stopped by ITS iteration limit; a call that was given no limit (default 10^6
+  \* iterations on an instance of a few arcs) has to answer - burning the default budget means it cycled
+  ELSE IF e.status \in {"MAX_ITER", "FEASIBLE"} /\ "limited" \in DOMAIN e /\ ~e.limited THEN "Return.default_iteration_budget_exhausted_on_a_small_instance"
   ELSE IF e.status = "MAX_ITER" THEN ""
   ELSE IF e.status \notin {"OPTIMAL", "FEASIBLE"} THEN "Return.unexpected_status"       \* FEASIBLE: stopped by an iteration limit
   ELSE LET f == PairFlow(e.flows) x == Realise(n, A, f) IN
